@@ -180,6 +180,8 @@ fn exp_label(k: i32) -> &'static str {
 // ------------------------------------------------------------------------------------------------------------
 
 struct Unit {
+    /// how many of (modelview, projection, viewport, point) are special exact values
+    nsp: u32,
     mv: M4,
     proj: M4,
     vp: [Rat; 4],
@@ -349,6 +351,7 @@ fn gen_vp(t: &mut Tape, cx: &mut Cx, tiny: i64) -> [Rat; 4] {
     let (mut x, mut y) = (ord_off(t), ord_off(t));
     let (mut w, mut h) = (d(t.int(1, 4000), -1), d(t.int(1, 3000), -1));
     match r {
+        3 => return sp_vp(t, cx),
         4 => {
             cx.label("viewport: large offset");
             x = big_off(t);
@@ -385,10 +388,240 @@ fn gen_vp(t: &mut Tape, cx: &mut Cx, tiny: i64) -> [Rat; 4] {
     [x, y, w, h]
 }
 
-fn gen_unit(t: &mut Tape, cx: &mut Cx, wide_depth: bool, tiny: i64) -> Unit {
-    let mv = gen_mv(t, cx);
-    let proj = gen_proj(t, cx, wide_depth);
-    let vp = gen_vp(t, cx, tiny);
+
+// ------------------------------------------------------------------------------------------------------------
+// special exact values (what a generator of "arbitrary" values never produces, and what a fast path is keyed on)
+// ------------------------------------------------------------------------------------------------------------
+
+fn ident4() -> M4 {
+    let mut m = zero4();
+    for i in 0..4 {
+        m[i][i] = Rat::ONE;
+    }
+    m
+}
+
+fn sp_vp(t: &mut Tape, cx: &mut Cx) -> [Rat; 4] {
+    cx.label("viewport: special exact value");
+    let i = |n: i64| Rat::int(n);
+    match t.below(12) {
+        0 | 1 => {
+            cx.label("viewport: the clip square (-1,-1,2,2)");
+            [i(-1), i(-1), i(2), i(2)]
+        }
+        2 => {
+            cx.label("viewport: (0,0,1,1)");
+            [i(0), i(0), i(1), i(1)]
+        }
+        3 => {
+            cx.label("viewport: (0,0,2,2)");
+            [i(0), i(0), i(2), i(2)]
+        }
+        4 => {
+            cx.label("viewport: (-1,-1,1,1)");
+            [i(-1), i(-1), i(1), i(1)]
+        }
+        5 => {
+            cx.label("viewport: (-1/2,-1/2,1,1)");
+            [d(-1, -1), d(-1, -1), i(1), i(1)]
+        }
+        6 => {
+            cx.label("viewport: (1,1,1,1)");
+            [i(1), i(1), i(1), i(1)]
+        }
+        7 | 8 => {
+            cx.label("viewport: zero offset, power-of-two size");
+            [i(0), i(0), d(1, t.int(0, 12) as i32), d(1, t.int(0, 12) as i32)]
+        }
+        9 => {
+            cx.label("viewport: (0,0,640,480)");
+            [i(0), i(0), i(640), i(480)]
+        }
+        10 => {
+            cx.label("viewport: power-of-two offset and size");
+            [d(1, t.int(0, 10) as i32), d(1, t.int(0, 10) as i32), d(1, t.int(0, 12) as i32), d(1, t.int(0, 12) as i32)]
+        }
+        _ => {
+            cx.label("viewport: symmetric about 0 (-2^k,-2^k,2^(k+1),2^(k+1))");
+            let k = t.int(-3, 10) as i32;
+            [d(-1, k), d(-1, k), d(1, k + 1), d(1, k + 1)]
+        }
+    }
+}
+
+fn sp_mv(t: &mut Tape, cx: &mut Cx) -> M4 {
+    cx.label("modelview: special exact value");
+    let mut m = ident4();
+    match t.below(8) {
+        0 | 1 | 2 => cx.label("modelview: identity"),
+        3 => {
+            cx.label("modelview: pure integer translation");
+            for i in 0..3 {
+                m[i][3] = Rat::int(t.int(-4, 4));
+            }
+        }
+        4 => {
+            cx.label("modelview: signed permutation, no translation");
+            let perm = PERMS[t.below(6)];
+            for i in 0..3 {
+                m[i][i] = Rat::ZERO;
+            }
+            for i in 0..3 {
+                m[i][perm[i]] = Rat::int(if t.bool() { -1 } else { 1 });
+            }
+        }
+        5 => {
+            cx.label("modelview: uniform scale 2^g");
+            let g = t.int(-3, 3) as i32;
+            for i in 0..3 {
+                m[i][i] = d(1, g);
+            }
+        }
+        6 => {
+            cx.label("modelview: z flip");
+            m[2][2] = -Rat::ONE;
+        }
+        _ => {
+            cx.label("modelview: translation along z by a power of two");
+            m[2][3] = d(if t.bool() { -1 } else { 1 }, t.int(-2, 4) as i32);
+        }
+    }
+    m
+}
+
+fn sp_proj(t: &mut Tape, cx: &mut Cx) -> M4 {
+    cx.label("proj: special exact value");
+    let mut m = ident4();
+    match t.below(12) {
+        0 | 1 => cx.label("proj: identity"),
+        2 => {
+            cx.label("proj: orthographic of the cube [-1,1]^3 (diag(1,1,-1,1))");
+            m[2][2] = -Rat::ONE;
+        }
+        3 => {
+            cx.label("proj: orthographic, power-of-two extents");
+            for i in 0..3 {
+                m[i][i] = d(if i == 2 && t.bool() { -1 } else { 1 }, -(t.int(0, 4) as i32));
+                m[i][3] = Rat::int(t.int(-1, 1));
+            }
+        }
+        4 | 5 | 6 => {
+            // fov 90 degrees, aspect 1 (or power-of-two focal lengths), near 2^-i, far = near + 2^g
+            cx.label("proj: perspective, focal lengths exactly 1 or a power of two");
+            let i = t.int(0, 3) as i32;
+            let g = t.int(-1, 3) as i32;
+            let zo = t.bool();
+            let (a, b) = if zo { (-(Rat::ONE + d(1, -i - g)), -(d(1, -2 * i - g) + d(1, -i))) } else { (-(Rat::ONE + d(1, 1 - i - g)), -(d(1, 1 - 2 * i - g) + d(1, 1 - i))) };
+            if t.chance(64) {
+                m[0][0] = d(1, t.int(-2, 2) as i32);
+                m[1][1] = d(1, t.int(-2, 2) as i32);
+            }
+            let lh = t.bool();
+            m[2][2] = if lh { -a } else { a };
+            m[2][3] = b;
+            m[3][2] = if lh { Rat::ONE } else { -Rat::ONE };
+            m[3][3] = Rat::ZERO;
+        }
+        7 => {
+            cx.label("proj: affine, bottom row exactly (0,0,0,1)");
+            for i in 0..3 {
+                for j in 0..4 {
+                    m[i][j] = Rat::int(t.int(-3, 3));
+                }
+            }
+        }
+        8 => {
+            cx.label("proj: uniform scale 2^g of the identity (w included)");
+            let g = t.int(-4, 4) as i32;
+            for i in 0..4 {
+                m[i][i] = d(1, g);
+            }
+        }
+        9 => {
+            cx.label("proj: identity with w scaled by 2^g");
+            m[3][3] = d(1, t.int(-3, 3) as i32);
+        }
+        10 => {
+            cx.label("proj: identity with a depth translation");
+            m[2][3] = Rat::int(if t.bool() { -1 } else { 1 });
+        }
+        _ => {
+            cx.label("proj: bottom row exactly (0,0,1,1)");
+            m[3][2] = Rat::ONE;
+        }
+    }
+    m
+}
+
+/// A point that lands exactly on a special place of clip space (near / far plane, centre, corners and edge
+/// midpoints of the viewport, half way), the world origin or a unit point - if it is dyadic.
+fn sp_point(t: &mut Tape, cx: &mut Cx, mv: &M4, proj: &M4) -> Option<[Rat; 3]> {
+    let small = |q: &[Rat; 3]| q.iter().all(|x| x.numer() == 0 || dy(*x).map(|(m, _)| bits(m) <= 20).unwrap_or(false));
+    match t.below(8) {
+        0 => {
+            cx.label("point: world origin");
+            Some([Rat::ZERO; 3])
+        }
+        1 => {
+            cx.label("point: unit point");
+            let k = t.below(4);
+            let s = Rat::int(if t.bool() { -1 } else { 1 });
+            Some(if k == 3 { [s, s, s] } else { let mut q = [Rat::ZERO; 3]; q[k] = s; q })
+        }
+        _ => {
+            let pick = |t: &mut Tape| if t.chance(40) { d(if t.bool() { -1 } else { 1 }, -1) } else { Rat::int(t.int(-1, 1)) };
+            let n = [pick(t), pick(t), pick(t), Rat::ONE];
+            let inv = rf::inverse(&rf::matmul(proj, mv))?;
+            let o = rf::matvec(&inv, &n);
+            if o[3].numer() == 0 {
+                return None;
+            }
+            let q = [o[0] / o[3], o[1] / o[3], o[2] / o[3]];
+            if !small(&q) {
+                cx.label("point: special clip-space point not dyadic (generic point used)");
+                return None;
+            }
+            cx.label("point: exactly on ndc x,y,z in {-1,-1/2,0,1/2,1}");
+            if n[2] == -Rat::ONE || n[2] == Rat::ONE {
+                cx.label("point: on the plane ndc z = -1 or +1");
+            }
+            if n[2].numer() == 0 {
+                cx.label("point: on the plane ndc z = 0");
+            }
+            Some(q)
+        }
+    }
+}
+
+fn gen_unit(t: &mut Tape, cx: &mut Cx, wide_depth: bool, tiny: i64, special: bool) -> Unit {
+    let mut nsp = 0;
+    let mv = if special && t.chance(176) {
+        nsp += 1;
+        sp_mv(t, cx)
+    } else {
+        gen_mv(t, cx)
+    };
+    let proj = if special && t.chance(176) {
+        nsp += 1;
+        sp_proj(t, cx)
+    } else {
+        gen_proj(t, cx, wide_depth)
+    };
+    let vp = if special && t.chance(176) {
+        nsp += 1;
+        let mut v = sp_vp(t, cx);
+        if t.chance(16) {
+            cx.label("viewport: negative height");
+            v[3] = -v[3];
+        }
+        if t.chance(16) {
+            cx.label("viewport: negative width");
+            v[2] = -v[2];
+        }
+        v
+    } else {
+        gen_vp(t, cx, tiny)
+    };
     let mut p = [d(t.int(-72, 72), -3), d(t.int(-72, 72), -3), d(t.int(-72, 72), -3)];
     // a point close to the eye plane: eye-space z a small power of two (so |clip w| << |clip x,y| for a perspective)
     let local = [d(t.int(-16, 16), -2), d(t.int(-16, 16), -2), d((if t.bool() { -1 } else { 1 }) * t.int(1, 3), -(t.int(0, 12) as i32)), Rat::ONE];
@@ -401,7 +634,13 @@ fn gen_unit(t: &mut Tape, cx: &mut Cx, wide_depth: bool, tiny: i64) -> Unit {
             }
         }
     }
-    Unit { mv, proj, vp, p }
+    if special && t.chance(176) {
+        if let Some(q) = sp_point(t, cx, &mv, &proj) {
+            nsp += 1;
+            p = q;
+        }
+    }
+    Unit { nsp, mv, proj, vp, p }
 }
 
 // ------------------------------------------------------------------------------------------------------------
@@ -578,9 +817,9 @@ fn reference(u: &Unit) -> Option<([Rat; 3], [Rat; 3])> {
 }
 
 /// world_to_viewport_{no,zo} with the modelview scaled by 2^a, the projection by 2^b and the world unit by 2^j.
-fn proj_scaled<S: Dom>(t: &mut Tape, cx: &mut Cx) -> CaseResult {
+fn proj_scaled<S: Dom, const SP: bool>(t: &mut Tape, cx: &mut Cx) -> CaseResult {
     let f = fmt::<S>();
-    let u = gen_unit(t, cx, true, tiny_exp::<S>());
+    let u = gen_unit(t, cx, true, tiny_exp::<S>(), SP);
     let pm = rf::matmul(&u.proj, &u.mv);
     if rf::det(&pm).numer() == 0 {
         discard!("precondition:singular");
@@ -595,8 +834,8 @@ fn proj_scaled<S: Dom>(t: &mut Tape, cx: &mut Cx) -> CaseResult {
     };
     exact_extra(cx, &u, &want_no, &want_zo)?;
 
-    // ---- exponents ----
-    let mode = t.below(8);
+    // ---- exponents (special-value cases: mostly unscaled) ----
+    let mode = if SP && !t.chance(64) { 0 } else { t.below(8) };
     let jmax = f.emax - 40;
     let j = if mode >= 5 {
         let rj = match exp_range::<S>(&u.p, &|_| 0) {
@@ -723,7 +962,7 @@ fn proj_scaled<S: Dom>(t: &mut Tape, cx: &mut Cx) -> CaseResult {
             }
             // non-trivial: some scaling applied, w != 1, and the bound is much tighter than the viewport / depth range
             let tight = tl.no[0] <= af(u.vp[2]) / 64.0 + 64.0 * S::eps() * af(u.vp[0]) && tl.no[2] <= (tl.ndc[2].abs() + 1.0) / 64.0;
-            cx.set_nontrivial((a != 0 || b != 0 || j != 0) && an.clip[3] != Rat::ONE && tight);
+            cx.set_nontrivial(if SP { u.nsp > 0 && tight } else { (a != 0 || b != 0 || j != 0) && an.clip[3] != Rat::ONE && tight });
         }
     }
     Ok(())
@@ -820,10 +1059,10 @@ fn unproj_tol(ia: &InvAn, n: &[f64; 3], dn: &[f64; 3], world: &[f64; 3], obj_w: 
 
 /// viewport_to_world_{no,zo} (and the round trip through world_to_viewport) with modelview x 2^a, projection x 2^b
 /// (a, b anywhere in the normal range, a + b small enough for the 4x4 inverse) and the world unit x 2^j.
-fn unproj_scaled<S: Dom>(t: &mut Tape, cx: &mut Cx) -> CaseResult {
+fn unproj_scaled<S: Dom, const SP: bool>(t: &mut Tape, cx: &mut Cx) -> CaseResult {
     let f = fmt::<S>();
     let eps = S::eps();
-    let u = gen_unit(t, cx, false, tiny_exp::<S>());
+    let u = gen_unit(t, cx, false, tiny_exp::<S>(), SP);
     let pm = rf::matmul(&u.proj, &u.mv);
     let det = rf::det(&pm);
     if det.numer() == 0 {
@@ -854,7 +1093,7 @@ fn unproj_scaled<S: Dom>(t: &mut Tape, cx: &mut Cx) -> CaseResult {
         }
         (hbf(af(det)) + 4 * s - 3 * j).abs() <= 4 * l - 8
     };
-    let mode = t.below(8);
+    let mode = if SP && !t.chance(64) { 0 } else { t.below(8) };
     let mut j = if mode >= 5 { strat(t, -l / 2, l / 2) } else { 0 };
     let mut s = if mode == 0 || mode == 5 { 0 } else { strat(t, -(l - 2), l - 2) };
     // shrink the drawn exponents until the dynamic range admits them
@@ -932,7 +1171,16 @@ fn unproj_scaled<S: Dom>(t: &mut Tape, cx: &mut Cx) -> CaseResult {
         }
         _ => d(t.int(1, 63), -6),
     };
-    let (n1, n2) = (t.int(-8, 24), t.int(-8, 24));
+    let (mut n1, mut n2) = (t.int(-8, 24), t.int(-8, 24));
+    let mut depth = depth;
+    let mut win_special = false;
+    if SP && t.chance(176) {
+        cx.label("window point: viewport corner / edge midpoint / centre, depth exactly 0, 1/2 or 1");
+        n1 = t.pick(&[0i64, 8, 16]);
+        n2 = t.pick(&[0i64, 8, 16]);
+        depth = t.pick(&[Rat::ZERO, d(1, -1), Rat::ONE]);
+        win_special = true;
+    }
     let mut win = [u.vp[0] + u.vp[2] * d(n1, -4), u.vp[1] + u.vp[3] * d(n2, -4), depth];
     let mut win_s = [conv::<S>(win[0], 0), conv::<S>(win[1], 0), conv::<S>(win[2], 0)];
     if win_s.iter().any(|x| x.is_none()) {
@@ -1036,7 +1284,7 @@ fn unproj_scaled<S: Dom>(t: &mut Tape, cx: &mut Cx) -> CaseResult {
             }
         }
     }
-    cx.set_nontrivial(asserted > 0 && tight && (a != 0 || b != 0 || j != 0));
+    cx.set_nontrivial(asserted > 0 && tight && if SP { u.nsp > 0 || win_special } else { a != 0 || b != 0 || j != 0 });
     Ok(())
 }
 
@@ -1047,10 +1295,16 @@ fn unproj_scaled<S: Dom>(t: &mut Tape, cx: &mut Cx) -> CaseResult {
 /// picking_region with all window lengths (viewport, centre, size) x 2^k: the matrix is a function of ratios of
 /// lengths only. Every entry is compared with the exact matrix the property determines:
 /// x' = (vw/dx) x + ((vw - 2 (cx - vx))/dx) w, likewise y, z and w untouched.
-fn picking_scaled<S: Dom>(t: &mut Tape, cx: &mut Cx) -> CaseResult {
+fn picking_scaled<S: Dom, const SP: bool>(t: &mut Tape, cx: &mut Cx) -> CaseResult {
     let f = fmt::<S>();
     let eps = S::eps();
-    let vp = gen_vp(t, cx, tiny_exp::<S>());
+    let mut nsp = 0;
+    let vp = if SP && t.chance(176) {
+        nsp += 1;
+        sp_vp(t, cx)
+    } else {
+        gen_vp(t, cx, tiny_exp::<S>())
+    };
     let mut centre = match t.below(4) {
         0 | 1 => [vp[0] + vp[2] * d(t.int(-4, 12), -3), vp[1] + vp[3] * d(t.int(-4, 12), -3)],
         2 => {
@@ -1068,20 +1322,88 @@ fn picking_scaled<S: Dom>(t: &mut Tape, cx: &mut Cx) -> CaseResult {
         cx.label("centre at the viewport origin (offset + fraction of the size not representable)");
         centre = [vp[0], vp[1]];
     }
-    let rel = t.below(4);
+    let half = d(1, -1);
+    let mut centre_is_vp_centre = false;
+    if SP && t.chance(176) {
+        nsp += 1;
+        cx.label("centre: special exact value");
+        centre = match t.below(8) {
+            0 | 1 | 2 => {
+                cx.label("centre: the viewport centre");
+                centre_is_vp_centre = true;
+                [vp[0] + vp[2] * half, vp[1] + vp[3] * half]
+            }
+            3 => {
+                cx.label("centre: the viewport origin");
+                [vp[0], vp[1]]
+            }
+            4 => {
+                cx.label("centre: the far corner of the viewport");
+                [vp[0] + vp[2], vp[1] + vp[3]]
+            }
+            5 => {
+                cx.label("centre: (0,0)");
+                [Rat::ZERO, Rat::ZERO]
+            }
+            6 => {
+                cx.label("centre: (1,1)");
+                [Rat::ONE, Rat::ONE]
+            }
+            _ => {
+                cx.label("centre: viewport centre in x only");
+                [vp[0] + vp[2] * half, vp[1]]
+            }
+        };
+    }
+    let rel = if SP && t.chance(176) { 4 } else { t.below(4) };
     let mut size = [Rat::ZERO; 2];
     for i in 0..2 {
         let base = d(t.int(1, 255), -2);
         size[i] = match rel {
             0 | 1 => base,
             2 => base * Rat::new(vp[2 + i].numer().abs(), vp[2 + i].denom()) * d(1, -(t.int(8, 20) as i32)),
-            _ => base * d(1, t.int(8, 20) as i32),
+            3 => base * d(1, t.int(8, 20) as i32),
+            _ => Rat::ZERO,
+        };
+    }
+    if rel == 4 {
+        nsp += 1;
+        let av = [Rat::new(vp[2].numer().abs(), vp[2].denom()), Rat::new(vp[3].numer().abs(), vp[3].denom())];
+        size = match t.below(8) {
+            0 | 1 | 2 => {
+                cx.label("size: exactly the viewport size");
+                if centre_is_vp_centre {
+                    cx.label("picking region = the whole viewport");
+                }
+                av
+            }
+            3 => {
+                cx.label("size: exactly (1,1)");
+                [Rat::ONE, Rat::ONE]
+            }
+            4 => {
+                cx.label("size: exactly (2,2)");
+                [Rat::int(2), Rat::int(2)]
+            }
+            5 => {
+                cx.label("size: half the viewport size");
+                [av[0] * half, av[1] * half]
+            }
+            6 => {
+                cx.label("size: viewport size in one coordinate, 1 in the other");
+                if t.bool() { [av[0], Rat::ONE] } else { [Rat::ONE, av[1]] }
+            }
+            _ => {
+                cx.label("size: a power of two");
+                [d(1, t.int(-4, 8) as i32), d(1, t.int(-4, 8) as i32)]
+            }
         };
     }
     cx.label(match rel {
         0 | 1 => "size: ordinary",
         2 => "size: 2^-8..2^-20 of the viewport",
-        _ => "size: huge",
+        3 => "size: huge",
+        _ => "size: special exact value",
     });
     let all = [vp[0], vp[1], vp[2], vp[3], centre[0], centre[1], size[0], size[1]];
     let (lo, hi) = match exp_range::<S>(&all, &|_| 0) {
@@ -1095,7 +1417,7 @@ fn picking_scaled<S: Dom>(t: &mut Tape, cx: &mut Cx) -> CaseResult {
         discard!("excluded:overflow");
     }
     let dmin = hbf(af(size[0]).min(af(size[1])));
-    let k = match t.below(8) {
+    let k = match if SP && !t.chance(64) { 0 } else { t.below(8) } {
         0 => 0.clamp(lo, hi),
         1 | 2 => {
             // the smaller size subnormal
@@ -1138,7 +1460,7 @@ fn picking_scaled<S: Dom>(t: &mut Tape, cx: &mut Cx) -> CaseResult {
     want[3][3] = 1.0;
     want_r[2][2] = Rat::ONE;
     want_r[3][3] = Rat::ONE;
-    cx.set_nontrivial(k != 0 && want[0][3] != 0.0 && want[1][3] != 0.0 && want[0][0] != want[1][1]);
+    cx.set_nontrivial(if SP { nsp > 0 } else { k != 0 && want[0][3] != 0.0 && want[1][3] != 0.0 && want[0][0] != want[1][1] });
     // exact arithmetic in the unit frame
     {
         let r = Rect { x: vp[0], y: vp[1], w: vp[2], h: vp[3] };
@@ -1171,12 +1493,21 @@ pub fn add(checks: &mut Vec<Check>) {
         };
     }
     let a = "world_to_viewport_{no,zo} is invariant under modelview x 2^a, projection x 2^b and a change of the world unit by 2^j: exact dyadic unit-frame case (perspective / frustum / orthographic / structured bottom rows (0,0,c,1).. / arbitrary; viewports with large offsets, tiny, huge, negative sizes; points close to the eye plane), exponents over the whole normal range and down to a subnormal clip w; compared with the exact unit-frame projection within a per-case forward error bound (clip space exact when all terms are representable); the unit frame also evaluated by vek in exact arithmetic; both layouts";
-    tape!("scaled-projection-f32", a, 192, 8_000, 300_000, proj_scaled::<f32>);
-    tape!("scaled-projection-f64", a, 192, 8_000, 300_000, proj_scaled::<f64>);
+    tape!("scaled-projection-f32", a, 192, 8_000, 300_000, proj_scaled::<f32, false>);
+    tape!("scaled-projection-f64", a, 192, 8_000, 300_000, proj_scaled::<f64, false>);
     let b = "viewport_to_world_{no,zo} of a dyadic window point (depth inside / on the ends of / outside [0,1], inside and outside the viewport) vs the exact unit-frame unprojection, and the round trip viewport_to_world(world_to_viewport(p)) = p, with modelview x 2^a, projection x 2^b (a, b anywhere in the normal range, |a+b| within the dynamic range of the 4x4 inverse) and the world unit x 2^j; per-case forward error bound (permanents of the minors); unit frame in exact arithmetic; both layouts";
-    tape!("scaled-unprojection-f32", b, 192, 5_000, 200_000, unproj_scaled::<f32>);
-    tape!("scaled-unprojection-f64", b, 192, 5_000, 200_000, unproj_scaled::<f64>);
+    tape!("scaled-unprojection-f32", b, 192, 5_000, 200_000, unproj_scaled::<f32, false>);
+    tape!("scaled-unprojection-f64", b, 192, 5_000, 200_000, unproj_scaled::<f64, false>);
     let c = "picking_region with viewport, centre and size x 2^k (k over the whole normal range and down to subnormal sizes; sizes 2^-20 of the viewport and huge; centres far outside; viewports with large offsets / tiny / negative sizes): every entry vs the exact matrix the property determines; unit frame in exact arithmetic; both layouts";
-    tape!("scaled-picking-f32", c, 64, 10_000, 400_000, picking_scaled::<f32>);
-    tape!("scaled-picking-f64", c, 64, 10_000, 400_000, picking_scaled::<f64>);
+    tape!("scaled-picking-f32", c, 64, 10_000, 400_000, picking_scaled::<f32, false>);
+    tape!("scaled-picking-f64", c, 64, 10_000, 400_000, picking_scaled::<f64, false>);
+    let sa = "special exact values: each of modelview (identity, pure translation, signed permutation, 2^g scale, z flip), projection (identity, diag(1,1,-1,1), power-of-two orthographic, perspective with focal length 1 / power of two, bottom row exactly (0,0,0,1) / (0,0,-1,0) / (0,0,1,1), 2^g I), viewport ((-1,-1,2,2), (0,0,1,1), (0,0,2,2), (-1,-1,1,1), (-1/2,-1/2,1,1), (1,1,1,1), zero offset with power-of-two sizes, symmetric about 0) and point (exactly on ndc x,y,z in {-1,-1/2,0,1/2,1}: near / far plane, viewport centre, corners; world origin; unit points; eye-plane neighbours) is special in 11 cases out of 16 and ordinary otherwise, all combinations; world_to_viewport_{no,zo} vs the reference projection (exact in Rat on every case, floats within the forward bound), mostly unscaled, one case in four also scaled by 2^a, 2^b, 2^j; both layouts";
+    tape!("special-projection-f32", sa, 224, 4_000, 200_000, proj_scaled::<f32, true>);
+    tape!("special-projection-f64", sa, 224, 4_000, 200_000, proj_scaled::<f64, true>);
+    let sb = "special exact values (as special-projection) for viewport_to_world_{no,zo}: window points exactly on the viewport corners / edge midpoints / centre with depth exactly 0, 1/2, 1 vs the exact unprojection (Rat on every case, floats within the forward bound), and the round trip viewport_to_world(world_to_viewport(p)) = p for the special points; both layouts";
+    tape!("special-unprojection-f32", sb, 224, 3_000, 150_000, unproj_scaled::<f32, true>);
+    tape!("special-unprojection-f64", sb, 224, 3_000, 150_000, unproj_scaled::<f64, true>);
+    let sc = "special exact values for picking_region: viewports as above; centre = viewport centre / origin / far corner / (0,0) / (1,1); size = exactly the viewport size (region = whole viewport: the identity) / (1,1) / (2,2) / half the viewport / a power of two; every entry vs the exact matrix (Rat on every case); both layouts";
+    tape!("special-picking-f32", sc, 96, 5_000, 200_000, picking_scaled::<f32, true>);
+    tape!("special-picking-f64", sc, 96, 5_000, 200_000, picking_scaled::<f64, true>);
 }
